@@ -81,6 +81,8 @@ NOSAN static void* h_calloc(size_t n, size_t sz) {
   rt_reg(&r->next, sizeof r->next, 100 * id, 8);
   rt_reg((void*)&r->retire_threshold, sizeof r->retire_threshold, 100 * id + 1, 8);
   rt_reg(r->hazard_pointers, sizeof(void*) * K, 100 * id + 10, 8);
+  /* search mode only: the rest of this record (fields the model does not know; retired list, plist, counts) */
+  rt_reg_rest(r, sizeof recpool[0], 20000 + 256 * t);
   return r;
 }
 NOSAN static int node_index(hazard_node_t* n) {
